@@ -458,4 +458,6 @@ def check(ctx, R):
     R.run("C02.d", rule_d, ctx)
     R.run("C02.f", rule_f, ctx)
     R.run("C02.g", rule_g, ctx)
+    from . import preds
+    R.run("C02.p", lambda R, c: preds.rule(R, c, "C02.p", ["is_missing"]), ctx)
     return {}
